@@ -8,41 +8,40 @@
      D : desc_info    (what update_item_with_descriptor_helper derives from a descriptor)
      F, G : sighash decoding used by sanity_check
      M : the allow_mall flag the single-input API passes down
-     K : whether finalize_input keeps the input's `unknown` map (tabulated on every run)
    and every theorem below holds for ALL such parameters (hypotheses on T are explicit).
-   Histories are arbitrary operation lists: [run T I D F G M K ops st]. *)
+   Histories are arbitrary operation lists: [run T I D F G M ops st]. *)
 From Coq Require Import List Bool NArith Permutation.
 Import ListNotations.
 From Verif Require Import PsbtModel PsbtLemmas PsbtReach PsbtAtomic PsbtIdem PsbtIdemOld PsbtValid PsbtOrder PsbtUpdate PsbtExamples.
 
 (* ---- never alters inputs that are already final *)
-Theorem C14_final_monotone : forall T I D F G M K (ops : list op) (st : psbt) (i : nat) (a : pinput),
+Theorem C14_final_monotone : forall T I D F G M (ops : list op) (st : psbt) (i : nat) (a : pinput),
   nth_error (p_inputs st) i = Some a -> is_final a = true ->
-  exists a', nth_error (p_inputs (run T I D F G M K ops st)) i = Some a' /\
+  exists a', nth_error (p_inputs (run T I D F G M ops st)) i = Some a' /\
              i_fsig a' = i_fsig a /\ i_fwit a' = i_fwit a.
 Proof. exact final_monotone. Qed.
 Print Assumptions C14_final_monotone.
 
-Theorem C14_finalize_preserves_final_inputs : forall T I D F G M K (st : psbt) (o : op) (j : nat) (a : pinput),
+Theorem C14_finalize_preserves_final_inputs : forall T I D F G M (st : psbt) (o : op) (j : nat) (a : pinput),
   is_finalize_op o = true -> nth_error (p_inputs st) j = Some a -> is_final a = true ->
-  nth_error (p_inputs (fst (step T I D F G M K st o))) j = Some a.
+  nth_error (p_inputs (fst (step T I D F G M st o))) j = Some a.
 Proof. exact finalize_preserves_final_inputs. Qed.
 Print Assumptions C14_finalize_preserves_final_inputs.
 
-Theorem C14_utxos_invariant : forall T I D F G M K (ops : list op) (st : psbt),
-  p_tx (run T I D F G M K ops st) = p_tx st /\ p_ntx (run T I D F G M K ops st) = p_ntx st /\
-  map utxos_of (p_inputs (run T I D F G M K ops st)) = map utxos_of (p_inputs st).
+Theorem C14_utxos_invariant : forall T I D F G M (ops : list op) (st : psbt),
+  p_tx (run T I D F G M ops st) = p_tx st /\ p_ntx (run T I D F G M ops st) = p_ntx st /\
+  map utxos_of (p_inputs (run T I D F G M ops st)) = map utxos_of (p_inputs st).
 Proof. exact utxos_invariant. Qed.
 Print Assumptions C14_utxos_invariant.
 
 (* ---- leaves an input untouched when it fails *)
-Theorem C14_fail_untouched : forall T I D F G M K (st : psbt) (i : nat) (m : bool) (st' : psbt) (r : result),
-  step T I D F G M K st (FinalizeInp i m) = (st', r) -> r <> ROk -> st' = st.
+Theorem C14_fail_untouched : forall T I D F G M (st : psbt) (i : nat) (m : bool) (st' : psbt) (r : result),
+  step T I D F G M st (FinalizeInp i m) = (st', r) -> r <> ROk -> st' = st.
 Proof. exact fail_untouched. Qed.
 Print Assumptions C14_fail_untouched.
 
-Theorem C14_fail_reports_try : forall T I D F G M K (st : psbt) (i : nat) (m : bool) (st' : psbt) (e : N),
-  step T I D F G M K st (FinalizeInp i m) = (st', RInputErr i e) ->
+Theorem C14_fail_reports_try : forall T I D F G M (st : psbt) (i : nat) (m : bool) (st' : psbt) (e : N),
+  step T I D F G M st (FinalizeInp i m) = (st', RInputErr i e) ->
   exists a, nth_error (p_inputs st) i = Some a /\ is_final a = false /\ T st i (M m) = TErr e.
 Proof. exact fail_reports_try. Qed.
 Print Assumptions C14_fail_reports_try.
@@ -50,8 +49,8 @@ Print Assumptions C14_fail_reports_try.
 (* finalize_mut / finalize_mall_mut: atomic per input, not per PSBT (as documented:
    "Finalizes all inputs that it can finalize, and returns an error for each input that it
    cannot finalize") *)
-Theorem C14_finalize_mut_failed_untouched : forall T I D F G M K (st : psbt) (m : bool) (st' : psbt) es,
-  step T I D F G M K st (Finalize m) = (st', RFinErrs es) ->
+Theorem C14_finalize_mut_failed_untouched : forall T I D F G M (st : psbt) (m : bool) (st' : psbt) es,
+  step T I D F G M st (Finalize m) = (st', RFinErrs es) ->
   forall i e, In (i, e) es ->
     nth_error (p_inputs st') i = nth_error (p_inputs st) i /\
     exists a, nth_error (p_inputs st) i = Some a /\ is_final a = false.
@@ -63,7 +62,7 @@ Example C14_finalize_partial_progress :
   let '(st', r) := ex_step st (Finalize false) in
   r = RFinErrs [(1, 10%N)] /\
   nth_error (p_inputs st') 1 = nth_error (p_inputs st) 1 /\
-  nth_error (p_inputs st') 0 = Some (cleared false (set_psigs blank [(1%N, 1%N)]) 5%N 6%N) /\
+  nth_error (p_inputs st') 0 = Some (cleared (set_psigs blank [(1%N, 1%N)]) 5%N 6%N) /\
   st' <> st.
 Proof. exact finalize_partial_progress. Qed.
 
@@ -75,49 +74,49 @@ Print Assumptions C14_update_fail_untouched.
 (* ---- idempotent.  Hypotheses on T: a success is never (empty, empty); a failure on input i
    is not turned into something else by finalizing OTHER inputs.  Both are needed
    (the two C14_idempotent_needs examples), both are monitored on the implementation by every run. *)
-Theorem C14_idempotent : forall T I D F G M K,
+Theorem C14_idempotent : forall T I D F G M,
   try_nonempty T -> try_stable T ->
   forall (st : psbt) (m : bool) (st' : psbt) (r : result),
-    step T I D F G M K st (Finalize m) = (st', r) -> step T I D F G M K st' (Finalize m) = (st', r).
+    step T I D F G M st (Finalize m) = (st', r) -> step T I D F G M st' (Finalize m) = (st', r).
 Proof. exact idempotent. Qed.
 Print Assumptions C14_idempotent.
 
-Theorem C14_idempotent_inp : forall T I D F G M K,
+Theorem C14_idempotent_inp : forall T I D F G M,
   try_nonempty T ->
   forall (st : psbt) (i : nat) (m : bool) (st' : psbt) (r : result),
-    step T I D F G M K st (FinalizeInp i m) = (st', r) -> step T I D F G M K st' (FinalizeInp i m) = (st', r).
+    step T I D F G M st (FinalizeInp i m) = (st', r) -> step T I D F G M st' (FinalizeInp i m) = (st', r).
 Proof. exact idempotent_inp. Qed.
 Print Assumptions C14_idempotent_inp.
 
-Theorem C14_idempotent_old : forall T I D F G M K,
+Theorem C14_idempotent_old : forall T I D F G M,
   try_nonempty T ->
   forall (st : psbt) (m : bool) (st' : psbt) (r : result),
-    step T I D F G M K st (FinalizeOld m) = (st', r) -> step T I D F G M K st' (FinalizeOld m) = (st', r).
+    step T I D F G M st (FinalizeOld m) = (st', r) -> step T I D F G M st' (FinalizeOld m) = (st', r).
 Proof. exact idempotent_old. Qed.
 Print Assumptions C14_idempotent_old.
 
 Example C14_idempotent_needs_nonempty :
   exists (T : psbt -> nat -> bool -> tryres) st,
-    let f := fun s => finalize_mut T false s false in
+    let f := fun s => finalize_mut T s false in
     fst (f (fst (f st))) <> fst (f st) \/ snd (f (fst (f st))) <> snd (f st).
 Proof. exact idempotent_needs_nonempty. Qed.
 
 Example C14_idempotent_needs_stability :
   exists (T : psbt -> nat -> bool -> tryres) st,
-    let f := fun s => finalize_mut T false s false in fst (f (fst (f st))) <> fst (f st).
+    let f := fun s => finalize_mut T s false in fst (f (fst (f st))) <> fst (f st).
 Proof. exact idempotent_needs_stability. Qed.
 
 (* ---- does not depend on the order in which signatures and other fields were added *)
-Theorem C14_order_indep : forall T I D F G M K (l1 l2 : list op),
+Theorem C14_order_indep : forall T I D F G M (l1 l2 : list op),
   Permutation l1 l2 -> ForallOrdPairs compat l1 ->
-  forall st, run T I D F G M K l1 st = run T I D F G M K l2 st.
+  forall st, run T I D F G M l1 st = run T I D F G M l2 st.
 Proof. exact order_indep. Qed.
 Print Assumptions C14_order_indep.
 
-Theorem C14_order_indep_finalize : forall T I D F G M K (l1 l2 : list op),
+Theorem C14_order_indep_finalize : forall T I D F G M (l1 l2 : list op),
   Permutation l1 l2 -> ForallOrdPairs compat l1 ->
-  forall st o, step T I D F G M K (run T I D F G M K l1 st) o = step T I D F G M K (run T I D F G M K l2 st) o /\
-               forall i m, T (run T I D F G M K l1 st) i m = T (run T I D F G M K l2 st) i m.
+  forall st o, step T I D F G M (run T I D F G M l1 st) o = step T I D F G M (run T I D F G M l2 st) o /\
+               forall i m, T (run T I D F G M l1 st) i m = T (run T I D F G M l2 st) i m.
 Proof. exact order_indep_finalize. Qed.
 Print Assumptions C14_order_indep_finalize.
 
@@ -127,43 +126,38 @@ Example C14_order_example :
 Proof. exact order_example. Qed.
 
 (* ---- succeeds only with what try_input produced; what is stored and what is cleared *)
-Theorem C14_success_valid : forall T I D F G M K (st : psbt) (i : nat) (m : bool) (st' : psbt) (a : pinput),
-  step T I D F G M K st (FinalizeInp i m) = (st', ROk) ->
+Theorem C14_success_valid : forall T I D F G M (st : psbt) (i : nat) (m : bool) (st' : psbt) (a : pinput),
+  step T I D F G M st (FinalizeInp i m) = (st', ROk) ->
   nth_error (p_inputs st) i = Some a -> is_final a = false ->
   exists s w, T st i (M m) = TOk s w /\
-    st' = with_inputs st (set_nth i (cleared K a s w) (p_inputs st)) /\
-    nth_error (p_inputs st') i = Some (cleared K a s w) /\
+    st' = with_inputs st (set_nth i (cleared a s w) (p_inputs st)) /\
+    nth_error (p_inputs st') i = Some (cleared a s w) /\
     (forall j, j <> i -> nth_error (p_inputs st') j = nth_error (p_inputs st) j).
 Proof. exact success_valid. Qed.
 Print Assumptions C14_success_valid.
 
-Theorem C14_cleared_fields : forall ku a s w,
-  let c := cleared ku a s w in
+Theorem C14_cleared_fields : forall a s w,
+  let c := cleared a s w in
   i_fsig c = nz s /\ i_fwit c = nz w /\ i_nwutxo c = i_nwutxo a /\ i_wutxo c = i_wutxo a /\
   i_psigs c = [] /\ i_sighash c = None /\ i_redeem c = None /\ i_witscript c = None /\
   i_bip32 c = [] /\ i_ripemd c = [] /\ i_sha256 c = [] /\ i_hash160 c = [] /\ i_hash256 c = [] /\
   i_tapkeysig c = None /\ i_tapsigs c = [] /\ i_tapscripts c = [] /\ i_taporigins c = [] /\
   i_tapik c = None /\ i_tapmerkle c = None /\ i_prop c = [] /\
-  i_unknown c = (if ku then i_unknown a else []).
+  i_unknown c = i_unknown a.
 Proof. exact cleared_fields. Qed.
 Print Assumptions C14_cleared_fields.
 
-(* BIP174: the finalizer should keep the UTXO *and unknown fields*.  The harness tabulates
-   K = false on the pinned tree (finalize_input drops them), for which the clause
-   "forall a s w, i_unknown (cleared K a s w) = i_unknown a" fails; it holds for K = true. *)
-Theorem C14_finalize_keeps_unknown_refuted :
-  exists a s w, i_unknown a <> [] /\ i_unknown (cleared false a s w) = [].
-Proof. exact finalize_keeps_unknown_refuted. Qed.
-Print Assumptions C14_finalize_keeps_unknown_refuted.
-
-Theorem C14_finalize_keeps_unknown_when_kept : forall a s w, i_unknown (cleared true a s w) = i_unknown a.
-Proof. exact finalize_keeps_unknown_when_kept. Qed.
-Print Assumptions C14_finalize_keeps_unknown_when_kept.
+(* BIP174: the finalizer keeps the UTXO *and the unknown fields*.  This clause was refuted with
+   a witness (C14_finalize_keeps_unknown_refuted) until /repo commit 2847ba9c repaired
+   finalize_input; the model mirrors the repaired code and the clause now holds. *)
+Theorem C14_finalize_keeps_unknown : forall a s w, i_unknown (cleared a s w) = i_unknown a.
+Proof. exact finalize_keeps_unknown. Qed.
+Print Assumptions C14_finalize_keeps_unknown.
 
 (* every final field met in any history is initial or a try_input success on a state with the
    same transaction and utxos *)
-Theorem C14_finals_provenance : forall T I D F G M K (ops : list op) (st : psbt) (i : nat) (a' : pinput),
-  nth_error (p_inputs (run T I D F G M K ops st)) i = Some a' -> is_final a' = true ->
+Theorem C14_finals_provenance : forall T I D F G M (ops : list op) (st : psbt) (i : nat) (a' : pinput),
+  nth_error (p_inputs (run T I D F G M ops st)) i = Some a' -> is_final a' = true ->
   exists a, nth_error (p_inputs st) i = Some a /\
     ((is_final a = true /\ finals_of a' = finals_of a) \/
      (is_final a = false /\ exists st1 m s w,
@@ -175,15 +169,15 @@ Print Assumptions C14_finals_provenance.
 (* with try_input sound for a spend predicate (C01/C13: verify_spend on the unsigned tx
    accepts), every final input after any history is a valid spend, and so is every input of
    every extracted transaction *)
-Theorem C14_all_finals_valid : forall T I D F G M K spends,
-  try_sound T spends -> forall ops st, valid spends st -> valid spends (run T I D F G M K ops st).
+Theorem C14_all_finals_valid : forall T I D F G M spends,
+  try_sound T spends -> forall ops st, valid spends st -> valid spends (run T I D F G M ops st).
 Proof. exact all_finals_valid. Qed.
 Print Assumptions C14_all_finals_valid.
 
-Theorem C14_extracted_valid : forall T I D F G M K spends,
+Theorem C14_extracted_valid : forall T I D F G M spends,
   try_sound T spends ->
   forall ops st l, valid spends st ->
-    extract I F G (run T I D F G M K ops st) = RExtracted l ->
+    extract I F G (run T I D F G M ops st) = RExtracted l ->
     length l = length (p_inputs st) /\
     forall i s w, nth_error l i = Some (s, w) -> spends (p_tx st) (map utxos_of (p_inputs st)) i s w.
 Proof. exact extracted_valid. Qed.
@@ -196,8 +190,8 @@ Theorem C14_extract_spec : forall I F G (st : psbt) l,
 Proof. exact extract_spec. Qed.
 Print Assumptions C14_extract_spec.
 
-Theorem C14_step_no_panic : forall T I D F G M K (st : psbt) (o : op) (s : N),
-  snd (step T I D F G M K st o) <> RPanic s.
+Theorem C14_step_no_panic : forall T I D F G M (st : psbt) (o : op) (s : N),
+  snd (step T I D F G M st o) <> RPanic s.
 Proof. exact step_no_panic. Qed.
 Print Assumptions C14_step_no_panic.
 
@@ -211,7 +205,7 @@ Example C14_history_example :
   let st := mkPsbt 1%N 2 [blank; blank] in
   let ops := [AddSig 0 3%N 4%N; Finalize false; AddSig 1 5%N 6%N; FinalizeInp 1 false;
               Finalize false; Finalize true; Extract] in
-  map fst (trace ex_try ex_interp ex_desc ex_flag ex_flag ex_mall false ops st) =
+  map fst (trace ex_try ex_interp ex_desc ex_flag ex_flag ex_mall ops st) =
   [ROk; RFinErrs [(1, 10%N)]; ROk; ROk; ROk; ROk; RExtracted [(Some 5%N, Some 6%N); (Some 5%N, Some 6%N)]].
 Proof. exact history_example. Qed.
 
